@@ -43,7 +43,7 @@ def _is_mutable_value(v: ast.AST) -> Optional[str]:
             return None
         if nm in ("list", "set", "dict", "deque", "defaultdict", "OrderedDict"):
             return "literal"
-        if nm and nm[0].isupper():
+        if nm and nm.lstrip("_")[:1].isupper():
             return "instance"
         if nm in ("fromkeys", "lex"):
             return "literal"
